@@ -700,7 +700,7 @@ def judge_stdin(desc, env):
 
 def plan(tier, seed):
     if tier == "quick":
-        nb, ns, nl = 400, 60, 4
+        nb, ns, nl = 380, 50, 12
     else:
         nb, ns, nl = 12000, 1500, 120
     jobs = []
